@@ -14,8 +14,8 @@ REAL_BU = "canopen.sdo.client:BlockUploadStream"
 @contract
 class BuInit(Contract):
     """initiate block upload [0xA0 | cc<<2, mux, blksize 127, pst 0, 0, 0]; response must be scs=6 with the same
-    multiplexer (else error, and abort 0x05040001 for a wrong command); size and CRC flag are taken from it; then the
-    start frame [0xA3, 0*7] is sent"""
+    multiplexer (else error, and abort 0x05040001 for a wrong command); the size is taken from it; a CRC is in force
+    exactly when the client asked for it and the server supports it (CiA 301); then the start frame [0xA3, 0*7] is sent"""
     target = "canopen.sdo.client:BlockUploadStream.__init__"
     props = ("C13", "C07")
     exits = ("return", "raise:SdoCommunicationError", "raise:SdoAbortedError")
@@ -49,7 +49,7 @@ class BuInit(Contract):
         sized = compare("!=", binop("&", c, 2), 0)
         size_ok = ite(sized, S.eq(st.get("size"), S.le_uint(S.sub(R, 4, 8))), st.get("size") is None) if "size" in st else Not(sized)
         return And(fr, len(sr) == 1 and S.bytes_are(sr[0], [0xA3, 0, 0, 0, 0, 0, 0, 0]),
-                   Iff(st.get("crc_supported", False), compare("!=", binop("&", c, 4), 0)), size_ok, S.eq(st["_ackseq"], 0),
+                   Iff(st.get("crc_supported", False), And(p["crc"], compare("!=", binop("&", c, 4), 0))), size_ok, S.eq(st["_ackseq"], 0),
                    S.eq(st["pos"], 0), Not(st["_done"]), Not(st["_error"]), S.eq(st["_crc"].fields["_value"], 0))
 
     ensures = {"initiate-and-start-frames_checks": lambda s: BuInit.ok(s)}
